@@ -1,5 +1,6 @@
 import NopModel.Lemmas.RoundTrip
 import NopModel.Lemmas.Minimal
+import NopModel.Lemmas.LangSound
 /-! C03 — the encoder emits exactly the documented wire format, minimal integer classes.
 The model encoder is the schema-directed reference the implementation is compared with byte
 for byte on every run; these theorems state what that reference guarantees. -/
@@ -67,6 +68,36 @@ theorem C03_layout_empty_entry (eid : Nat) (d : Bool) (es : List (Nat × Bool)) 
 the value and the references the writer hands back -/
 theorem C03_deterministic (t : Ty) (v : Val) (h1 h2 : HChan) (heq : h1 = h2) :
     encode t v h1 = encode t v h2 := by rw [heq]
+
+/-- **The encoder's output is in the documented language.** For every well-formed schema and
+well-typed value, what `Write` emits is a well-formed encoding of the type under docs/format.md
+(the grammar `Lang` of NopModel/Lang.lean) and denotes exactly the value written - for any
+handle table that resolves the references the writer handed back. -/
+theorem C03_in_documented_language (t : Ty) (hwf : t.wf = true) (v : Val) (h : HChan) (bs : Bytes) (h' : HChan)
+    (hv : valid t v = true) (he : encode t v h = .ok (bs, h')) (hs : List Int) (hr : Resolves hs h'.pushed) :
+    Lang hs t v bs := by
+  let s : Src := { bytes := bs, handles := hs }
+  have hd : decInto t (dflt t) s = (.ok v, s.adv bs.length) :=
+    (rt t hwf).decInto (dflt t) hv he s [] rfl (by simp [s]) rfl hr
+  have hsnd : Snd (decInto t (dflt t)) (fun hs v bs => Lang hs t v bs) := by
+    unfold decInto
+    exact Snd.mono (Snd.withPrefix (fun p => snd_decPayload t p (dflt t))) (fun _ _ _ h => h)
+  obtain ⟨b1, rest, hb, hs', _, hl⟩ := hsnd s v _ rfl hd
+  have hlen : b1.length = bs.length := by
+    have h1 : (s.adv bs.length).bytes.length = (s.adv b1.length).bytes.length := by rw [← hs']
+    simp only [adv_bytes, List.length_drop] at h1
+    have h2 : b1.length ≤ s.bytes.length := by rw [hb]; simp
+    have h3 : s.bytes.length = bs.length := rfl
+    omega
+  have hrest : rest = [] := by
+    have h3 : s.bytes = bs := rfl
+    rw [h3] at hb
+    have : bs.length = b1.length + rest.length := by rw [hb]; simp
+    exact List.eq_nil_of_length_eq_zero (by omega)
+  subst hrest
+  have h3 : s.bytes = bs := rfl
+  rw [h3, List.append_nil] at hb
+  rw [hb]; exact hl
 
 example : encInt .i32 (-65) = [0x84, 0xbf] ∧ encInt .u64 65536 = [0x82, 0, 0, 1, 0] := by decide
 
